@@ -5,31 +5,16 @@ namespace UvModel.Utf8
 theorem and_c0 : ∀ x, x < 256 → ((0xC0 &&& x = 0x80) ↔ (x / 64 = 2)) := by
   set_option maxRecDepth 100000 in decide
 
-theorem tb7 (x : Nat) (h : x < 256) : x.testBit 7 = decide (x / 128 = 1) := by
-  rw [Nat.testBit_eq_decide_div_mod_eq]; congr 1; simp; omega
-theorem tb6 (x : Nat) : x.testBit 6 = decide (x / 64 % 2 = 1) := by
-  rw [Nat.testBit_eq_decide_div_mod_eq]
+/-- the continuation test of idna.c:117 in arithmetic form -/
+abbrev ContOk (b c d : Nat) : Prop := b / 64 = 2 ∧ c / 64 = 2 ∧ d / 64 = 2
 
-theorem div64 (x : Nat) (h : x < 256) : (x / 64 = 2) ↔ (x.testBit 7 = true ∧ x.testBit 6 = false) := by
-  rw [tb7 x h, tb6]; simp; omega
-
-/-- the xor test of idna.c:117 in arithmetic form -/
-abbrev XorOk (b c d : Nat) : Prop :=
-  (b / 128 + c / 128 + d / 128) % 2 = 1 ∧ (b / 64 + c / 64 + d / 64) % 2 = 0
-
-theorem xor_check (b c d : Nat) (hb : b < 256) (hc : c < 256) (hd : d < 256) :
-    (0x80 ≠ (0xC0 &&& (b ^^^ c ^^^ d))) ↔ ¬ XorOk b c d := by
-  have hx : b ^^^ c ^^^ d < 256 :=
-    Nat.xor_lt_two_pow (n := 8) (Nat.xor_lt_two_pow (n := 8) hb hc) hd
-  rw [ne_comm, Ne, and_c0 _ hx, div64 _ hx]
-  simp only [Nat.testBit_xor]
-  simp only [tb7 _ hb, tb7 _ hc, tb7 _ hd, tb6, XorOk]
-  have := Nat.div_lt_of_lt_mul (m := b) (n := 128) (k := 2) (by omega)
-  have := Nat.div_lt_of_lt_mul (m := c) (n := 128) (k := 2) (by omega)
-  have := Nat.div_lt_of_lt_mul (m := d) (n := 128) (k := 2) (by omega)
-  by_cases h1 : b / 128 = 1 <;> by_cases h2 : c / 128 = 1 <;> by_cases h3 : d / 128 = 1 <;>
-  by_cases h4 : b / 64 % 2 = 1 <;> by_cases h5 : c / 64 % 2 = 1 <;> by_cases h6 : d / 64 % 2 = 1 <;>
-  simp [h1, h2, h3, h4, h5, h6] <;> omega
+theorem cont_check (b c d : Nat) (hb : b < 256) (hc : c < 256) (hd : d < 256) :
+    (0x80 ≠ (0xC0 &&& b) ∨ 0x80 ≠ (0xC0 &&& c) ∨ 0x80 ≠ (0xC0 &&& d)) ↔ ¬ ContOk b c d := by
+  have e : ∀ x, x < 256 → ((0x80 ≠ (0xC0 &&& x)) ↔ ¬ (x / 64 = 2)) := by
+    intro x hx; rw [ne_comm, Ne, and_c0 x hx]
+  rw [e b hb, e c hc, e d hd]
+  unfold ContOk
+  omega
 
 theorem and63 (x : Nat) : x &&& 63 = x % 64 := Nat.and_two_pow_sub_one_eq_mod x 6
 theorem and7 (x : Nat) : x &&& 7 = x % 8 := Nat.and_two_pow_sub_one_eq_mod x 3
@@ -53,7 +38,7 @@ theorem or80 (x : Nat) (h : x < 128) : 0x80 ||| x = 128 + x := by
 
 /-- arithmetic form of `finish` -/
 def finishA (min a b c d used : Nat) : R :=
-  if XorOk b c d then
+  if ContOk b c d then
     let v := a * 262144 + (b % 64) * 4096 + (c % 64) * 64 + d % 64
     if v < min ∨ v > 0x10FFFF ∨ (0xD800 ≤ v ∧ v ≤ 0xDFFF) then (none, used) else (some v, used)
   else (none, used)
@@ -61,8 +46,8 @@ def finishA (min a b c d used : Nat) : R :=
 theorem finish_eq (min a b c d used : Nat) (hb : b < 256) (hc : c < 256) (hd : d < 256) :
     finish min a b c d used = finishA min a b c d used := by
   unfold finish finishA
-  by_cases hx : XorOk b c d
-  · rw [if_neg ((not_congr (xor_check b c d hb hc hd)).mpr (fun h => h hx)), if_pos hx]
+  by_cases hx : ContOk b c d
+  · rw [if_neg ((not_congr (cont_check b c d hb hc hd)).mpr (fun h => h hx)), if_pos hx]
     simp only [and63]
     rw [compose a _ _ _ (Nat.mod_lt _ (by omega)) (Nat.mod_lt _ (by omega)) (Nat.mod_lt _ (by omega))]
     generalize a * 262144 + b % 64 * 4096 + c % 64 * 64 + d % 64 = v
@@ -73,7 +58,7 @@ theorem finish_eq (min a b c d used : Nat) (hb : b < 256) (hc : c < 256) (hd : d
       · by_cases h3 : v ≥ 0xD800 ∧ v ≤ 0xDFFF
         · simp [h1, h2, h3]
         · simp [h1, h2, h3]
-  · rw [if_pos ((xor_check b c d hb hc hd).mpr hx), if_neg hx]
+  · rw [if_pos ((cont_check b c d hb hc hd).mpr hx), if_neg hx]
 
 theorem bytes_cons {a : Nat} {l : List Nat} (h : Bytes (a :: l)) : a < 256 ∧ Bytes l :=
   ⟨h a (by simp), fun b hb => h b (by simp [hb])⟩
@@ -130,13 +115,6 @@ end UvModel.Utf8
 namespace UvModel.Utf8
 set_option linter.unusedSimpArgs false
 
-/-- 0 for a continuation byte, 1 otherwise -/
-def nbad (b : Nat) : Nat := if isCont b then 0 else 1
-
-theorem nbad_cases (b : Nat) :
-    (nbad b = 0 ∧ 128 ≤ b ∧ b ≤ 191) ∨ (nbad b = 1 ∧ (b < 128 ∨ b > 191)) := by
-  unfold nbad; split <;> omega
-
 theorem lo2_cases (a : Nat) : (a = 0xE0 ∧ lo2 a = 0xA0) ∨ (a = 0xF0 ∧ lo2 a = 0x90) ∨
     (a ≠ 0xE0 ∧ a ≠ 0xF0 ∧ lo2 a = 0x80) := by
   unfold lo2; repeat' split
@@ -147,14 +125,6 @@ theorem hi2_cases (a : Nat) : (a = 0xED ∧ hi2 a = 0x9F) ∨ (a = 0xF4 ∧ hi2 
   all_goals omega
 
 theorem q64 (b : Nat) (h : b < 256) : b / 64 = 0 ∨ b / 64 = 1 ∨ b / 64 = 2 ∨ b / 64 = 3 := by omega
-
-/-- among the trailing bytes that the decoder reads for this lead byte, at most one is not a
-    continuation byte (explicit form; with a single trailing byte read this always holds) -/
-def FewBadX : List Nat → Prop
-  | a :: b :: c :: d :: _ =>
-    if a > 0xEF then nbad b + nbad c + nbad d ≤ 1 else if a > 0xDF then nbad b + nbad c ≤ 1 else True
-  | [a, b, c] => if a > 0xDF then nbad b + nbad c ≤ 1 else True
-  | _ => True
 
 /-- unfold both decoders, split the hypothesis `h : _ = some _`, substitute, split the goal, `omega` -/
 macro "crunch" h:ident : tactic => `(tactic|
@@ -201,28 +171,16 @@ theorem spec_of_A_2 (a b v n : Nat) (ha : a < 256) (hb : b < 256)
 
 set_option maxHeartbeats 4000000 in
 theorem spec_of_A_3 (a b c v n : Nat) (ha : a < 256) (hb : b < 256) (hc : c < 256)
-    (hf : FewBadX [a, b, c]) (h : decode1A [a, b, c] = (some v, n)) :
-    spec [a, b, c] = some (v, n) := by
-  have := nbad_cases b; have := nbad_cases c; have := lo2_cases a; have := hi2_cases a
-  have := q64 b hb; have := q64 c hc
-  simp only [FewBadX] at hf
-  split at hf
-  · crunch h
-  · crunch h
+    (h : decode1A [a, b, c] = (some v, n)) : spec [a, b, c] = some (v, n) := by
+  have := lo2_cases a; have := hi2_cases a; have := q64 b hb; have := q64 c hc
+  crunch h
 
 set_option maxHeartbeats 8000000 in
 theorem spec_of_A_4 (a b c d v n : Nat) (r : List Nat) (ha : a < 256) (hb : b < 256) (hc : c < 256)
-    (hd : d < 256) (hf : FewBadX (a :: b :: c :: d :: r))
-    (h : decode1A (a :: b :: c :: d :: r) = (some v, n)) :
+    (hd : d < 256) (h : decode1A (a :: b :: c :: d :: r) = (some v, n)) :
     spec (a :: b :: c :: d :: r) = some (v, n) := by
-  have := nbad_cases b; have := nbad_cases c; have := nbad_cases d
   have := lo2_cases a; have := hi2_cases a
   have := q64 b hb; have := q64 c hc; have := q64 d hd
-  simp only [FewBadX] at hf
-  split at hf
-  · crunch h
-  · split at hf
-    · crunch h
-    · crunch h
+  crunch h
 
 end UvModel.Utf8
